@@ -33,7 +33,7 @@ def entries():
     out = []
     for e in catalog.ENTRIES.values():
         if e["seeded"]:
-            out.extend([e] * 4)
+            out.extend([e] * e.get("weight", 4))
         elif e["deterministic"]:
             out.append(e)
     return out
@@ -130,7 +130,8 @@ class Run:
         self.rec = rec
         self.cfg = rec["config"]
         self.P = proxy.get()
-        self.sched = Scheduler(chooser, (), None, step_cap=2_000_000, log_lines=False)
+        self.sched = Scheduler(chooser, (), None, step_cap=400_000, log_lines=False)
+        self.sched.strict_cap = False  # very long calls: after 4e5 yield points the history runs on without further switches
         self.rng = rng  # draws mid-call perturbations when plan is None
         self.plan = None if plan is None else {(p["t"], p["op"], p["ev"]): p["p"] for p in plan}
         self.realised = []  # mid-call perturbations that actually happened
@@ -362,6 +363,8 @@ def probes(run, cnt):
     cnt.merge(run.cnt)
     cnt.inc("mode:" + run.cfg["mode"] + ("+line" if run.cfg.get("gran") == "line" else ""))
     cnt.inc("yield_points", run.sched.yields)
+    if run.sched.aborted:
+        cnt.inc("probe:history_ran_past_the_pre-emption_budget")
     cnt.inc("switches", run.sched.nswitch)
     keys = {}
     last_g = None
